@@ -115,6 +115,7 @@ class Ops(SeriesOps):
         g = f
         if kind == "iloc":
             if isinstance(rowsel, int):
+                self.log("iloc-row", node, base=f.base, pos=rowsel)          # a positional row read: raises IndexError on an empty frame
                 r = self.row_obj(f, ("iloc", f.ctx(), rowsel))
                 if colsel is None:
                     return r
